@@ -385,6 +385,8 @@ def call_lua_sandbox(
             "#invoke {} with too few arguments".format(invoke_args),
             sortid="luaexec/369",
         )
+        if len(invoke_args) == 0:
+            return "{{#invoke:}}"
         return "{{" + invoke_args[0] + ":" + "|".join(invoke_args[1:]) + "}}"
 
     # Initialize the Lua sandbox if not already initialized
